@@ -7,7 +7,9 @@ From XV Require Import model.TokenFS.
 Import ListNotations.
 Open Scope Z_scope.
 
-Record pobs := mkPO { o_avail : Z; o_cache : list (nat * Z); o_obs : bool; o_evq : list event; o_wat : list nat }.
+(* o_wat: watcher threads still before their test; o_arm: pinned watcher threads past their test,
+   about to delete by name (always empty with the repaired watcher) *)
+Record pobs := mkPO { o_avail : Z; o_cache : list (nat * Z); o_obs : bool; o_evq : list event; o_wat : list nat; o_arm : list nat }.
 (* o_disk: (name, count) with -1 for an empty file; o_jobs: (phase code, status if compared, orphan,
    pid file exists) *)
 Record sobs := mkSO { o_disk : list (nat * Z); o_procs : list (option pobs); o_jobs : list (nat * option bool * bool * bool) }.
@@ -43,7 +45,8 @@ Definition proc_ok (n : nat) (pr : proc) (o : option pobs) : bool :=
       && list_eqb event_eqb (p_evq pr) (o_evq po)
       && forallb (fun k => oz_eqb (p_cache pr k) (assoc k (o_cache po))) (seq 0 n)
       && forallb (fun k => Nat.eqb (occ k (p_wat pr)) (occ k (o_wat po))) (seq 0 n)
-      && Nat.eqb (length (p_wat pr)) (length (o_wat po))
+      && forallb (fun k => Nat.eqb (occ (n + k)%nat (p_wat pr)) (occ k (o_arm po))) (seq 0 n)
+      && Nat.eqb (length (p_wat pr)) (length (o_wat po) + length (o_arm po))
   end.
 
 Fixpoint procs_ok (n : nat) (s : state) (p : nat) (l : list (option pobs)) : bool :=
